@@ -1,6 +1,7 @@
 import PyPhysim.Model.Proto
 import PyPhysim.Model.C03
 import PyPhysim.Model.C03Disc
+import PyPhysim.Model.C03Args
 open PyPhysim.Proto PyPhysim.C03
 
 /-! Line-protocol driver of the C03 model, instantiated at Gaussian rationals (exact). -/
@@ -190,6 +191,15 @@ def handle : List String → String
     | some ts, some ds, some ps =>
       let (d, p) := discretize ds ps ts
       "d=" ++ showInts d ++ " p=" ++ showList showQ p
+    | _, _, _ => "bad-op"
+  | ["ctor", g, p, a] =>
+    -- sampling intervals given to TdlChannel.__init__ ("N" = not given / Rayleigh / not discretised)
+    let opt (s : String) : Option (Option Rat) := if s == "N" then some none else (parseRat? s).map some
+    match opt g, opt p, opt a with
+    | some g, some p, some a =>
+      match ctorTs (1 : Rat) g p a with
+      | .ok t => "ok:" ++ showQ t
+      | .error e => showE e
     | _, _, _ => "bad-op"
   | ["round", x] => match parseRat? x with | some x => toString (roundHalfEven x) | none => "bad-op"
   | ["slice", a, b, c, n] =>
